@@ -108,6 +108,34 @@ theorem C17c_mixed_witness : (∃ s', Step lcfg l6 (.wait .conc .first [2]) s') 
 theorem acceptor_sound (cfg : Cfg) (s : St) (l : Label) (s' : St) (h : s' ∈ next cfg s l) : Step cfg s l s' :=
   TM.next_sound cfg s l s' h
 
+/-- … and offers every step: the executable successor function IS the relation (no false rejection of a
+    real trace because of a missing case, no false acceptance because of an extra one) -/
+theorem acceptor_exact (cfg : Cfg) (s : St) (l : Label) (s' : St) : s' ∈ next cfg s l ↔ Step cfg s l s' :=
+  TM.next_iff_step cfg s l s'
+
+/-- soundness of trace acceptance as a whole (subset construction closed under silent steps): whatever
+    state the acceptor is left with after the observations `obs` is reached by a run of the LTS whose
+    labels are explained by exactly `obs` -/
+theorem acceptance_sound (cfg : Cfg) (obs : List Obs) (s : St) (h : s ∈ accept cfg obs) :
+    ∃ tr, Run cfg tr s ∧ Explains tr obs := TM.accept_sound cfg obs s h
+
+/-- C07 (consequence): with `max_concurrency = 1` nothing is running when a node is picked, the remaining
+    graph is exactly the selected nodes not yet finished or skipped, and the picked node is a
+    compound-priority-maximal root of it — so the next node is a function of what has finished; with
+    pairwise distinct compound priorities it is unique (`C07_pick_unique`): the order is reproducible. -/
+theorem C07_next_pick_is_determined (cfg : Cfg) (hnd : cfg.nodes.Nodup) (hm : cfg.maxc = 1)
+    {tr s l s'} (hr : Run cfg tr s) (hs : Step cfg s l s') {n} (hl : l.start = some n ∨ l = .skip n) :
+    s.flight = [] ∧
+    (∀ x, x ∈ s.graph ↔ (x ∈ cfg.nodes ∧ x ∉ fins tr ∧ x ∉ skips tr)) ∧
+    isRoot cfg s.graph n ∧ (∀ m, isRoot cfg s.graph m → cfg.cp m ≤ cfg.cp n) :=
+  TM.C07_next_pick_is_determined cfg hnd hm hr hs hl
+
+theorem C07_pick_unique (cfg : Cfg) (hinj : ∀ a ∈ cfg.nodes, ∀ b ∈ cfg.nodes, cfg.cp a = cfg.cp b → a = b)
+    (g : List Node) (hg : ∀ x ∈ g, x ∈ cfg.nodes) (n n' : Node)
+    (h1 : isRoot cfg g n ∧ ∀ m, isRoot cfg g m → cfg.cp m ≤ cfg.cp n)
+    (h2 : isRoot cfg g n' ∧ ∀ m, isRoot cfg g m → cfg.cp m ≤ cfg.cp n') : n = n' :=
+  TM.C07_pick_unique cfg hinj g hg n n' h1 h2
+
 -- non-vacuity: a concrete configuration with a run of six steps meets every hypothesis above
 example : wcfg.nodes.Nodup ∧ 0 < wcfg.maxc ∧ Acyclic wcfg ∧
     Run wcfg [.wait .asyn .first [0], .tau, .dispatch 1 .conc, .tau, .dispatch 0 .asyn, .tau] w6 :=
